@@ -217,11 +217,13 @@ impl SimDir {
     fn op(&self, kind: K, path: &Path, data: Option<&[u8]>) -> io::Result<()> {
         let thread = thread_name();
         let mut st = self.st.lock().unwrap();
-        // gates (never on lock files: the meta lock is polled and must not be starved)
-        if !st.gates.is_empty() && !is_lock(path) {
+        // gates (on lock files only when the gate names a lock file explicitly: the meta lock is polled and a holder
+        // must not be starved; holding a thread *before* it creates the lock file starves nobody)
+        let lock_file = is_lock(path);
+        if !st.gates.is_empty() {
             let mut hit: Option<usize> = None;
             for (i, g) in st.gates.iter_mut().enumerate() {
-                if g.done || g.reached {
+                if g.done || g.reached || (lock_file && !g.spec.path_suffix.ends_with(".lock")) {
                     continue;
                 }
                 let m = thread.starts_with(g.spec.thread.as_str())
